@@ -299,9 +299,37 @@ class ExprGen:
     def case(self, fam, scope, d):
         rng = self.rng
         n = rng.randint(1, 2)
-        cases = [[self.expr("bool", scope, d), self.expr(fam, scope, d)] for _ in range(n)]
-        default = self.expr(fam, scope, d) if rng.random() < 0.7 else (lit(None) if rng.random() < 0.3 else None)
+        # for a float result, the branches may be narrower (int / null) than the default and vice versa:
+        # the static type must be the common supertype of *all* branches (C12)
+        def val(is_default=False):
+            if fam == "float" and rng.random() < 0.35:
+                return self.expr("int", scope, d)
+            if rng.random() < 0.08:
+                return lit(None)
+            return self.expr(fam, scope, d)
+
+        cases = [[self.expr("bool", scope, d), val()] for _ in range(n)]
+        if fam == "float" and all(self._fam_guess(v) != "float" for _c, v in cases):
+            default = self.expr("float", scope, d)
+        else:
+            default = val(True) if rng.random() < 0.7 else (lit(None) if rng.random() < 0.3 else None)
+        def is_null(v):
+            return v is None or (v.get("k") == "lit" and v.get("v") is None)
+
+        if all(is_null(v) for _c, v in cases) and is_null(default):
+            default = self.expr(fam, scope, d)  # a case expression needs one non-null branch to have a type
         return {"k": "case", "cases": cases, "default": default}
+
+    def _fam_guess(self, e):
+        """Cheap syntactic guess whether an expression is float-typed (only used to keep one float branch)."""
+        k = e.get("k")
+        if k == "lit":
+            return "float" if isinstance(e.get("v"), float) else "other"
+        if k == "fn" and e["op"] in ("truediv", "floor", "ceil", "pow", "sqrt", "mean"):
+            return "float"
+        if k == "cast":
+            return "float" if e["to"].startswith("Float") else "other"
+        return "unknown"
 
     # ---- aggregates / windows -------------------------------------------------------------
     def agg(self, scope, depth, allow_filter=True, pb=None, want=None):
@@ -1252,6 +1280,16 @@ def gen_reroot(seed):
         if not g.try_step(a):
             return g.finish([h])
         mid = g.chain(a["out"], rng.randint(0, 1), {"filter": 1, "arrange": 1}, depth=1)
+        if rng.random() < 0.6:
+            # the new table lists its columns in another order / only some of them: references are transferred by NAME
+            names = g.rr.env[mid].names()
+            keep = rng.sample(names, rng.randint(max(1, len(names) - 1), len(names)))
+            if "k" in names and "k" not in keep:
+                keep.append("k")
+            rng.shuffle(keep)
+            sel = {"in": mid, "out": g.new_handle(), "verb": "select", "cols": [cname(n) for n in keep]}
+            if g.try_step(sel):
+                mid = sel["out"]
         st = {"in": mid, "out": g.new_handle(), "verb": "transfer", "ref": before}
         if not g.try_step(st):
             return g.finish([h])
